@@ -43,9 +43,529 @@ class Repo:
                     rel = os.path.relpath(p, self.pkg)
                     self.modules[rel] = Module(rel, p)
         self.expanded_properties = []
+        self.synthesised_properties = []
+        self.inlined_helpers = []
+        self.split_locals = []
+        self._inline_helpers()
+        self._split_conditional_locals()
+        self.substituted_locals = []
+        self._substitute_block_locals()
+        self._split_ifexp_statements()
+        self._synthesise_properties()
         self._expand_properties()
 
     # ---- normalisation
+    def _split_ifexp_statements(self, prefix="hrevolve_sequences/"):
+        """NORM (builders only): an expression statement that contains `A if C else B` with a side-effect-free C becomes
+        `if C: <statement with A> else: <statement with B>`"""
+        import copy
+
+        def pure(e):
+            return not any(isinstance(x, (ast.Call, ast.Yield, ast.YieldFrom, ast.Await, ast.NamedExpr, ast.Lambda))
+                           for x in ast.walk(e))
+
+        class Pick(ast.NodeTransformer):
+            def __init__(self, target, branch):
+                self.target, self.branch = target, branch
+
+            def visit_IfExp(self, node):
+                if node is self.target or ast.dump(node) == self.target_dump:
+                    return self.visit(copy.deepcopy(node.body if self.branch else node.orelse))
+                return self.generic_visit(node)
+
+        def rewrite(stmts, depth=0):
+            out = []
+            for s_ in stmts:
+                for fld in ("body", "orelse", "finalbody"):
+                    if hasattr(s_, fld) and isinstance(getattr(s_, fld), list) and not isinstance(s_, (ast.FunctionDef, ast.ClassDef)):
+                        setattr(s_, fld, rewrite(getattr(s_, fld), depth))
+                if isinstance(s_, ast.Expr) and depth < 3:
+                    ife = [x for x in ast.walk(s_) if isinstance(x, ast.IfExp) and pure(x.test)]
+                    if ife:
+                        tgt = ife[0]
+                        parts = []
+                        for br in (True, False):
+                            pk = Pick(tgt, br)
+                            pk.target_dump = ast.dump(tgt)
+                            parts.append(pk.visit(copy.deepcopy(s_)))
+                        node = ast.If(copy.deepcopy(tgt.test), rewrite([parts[0]], depth + 1), rewrite([parts[1]], depth + 1))
+                        ast.copy_location(node, s_)
+                        ast.fix_missing_locations(node)
+                        out.append(node)
+                        continue
+                out.append(s_)
+            return out
+
+        for rel, m in self.modules.items():
+            if not rel.startswith(prefix):
+                continue
+            for n in ast.walk(m.tree):
+                if isinstance(n, ast.FunctionDef):
+                    n.body = rewrite(n.body)
+
+    def _substitute_block_locals(self, prefix="hrevolve_sequences/"):
+        """NORM (sequence and table builders only): a local with a single definition `x = <side-effect-free expr>`
+        whose uses all follow it in the same block, before anything the expression reads is changed, is replaced by
+        its definition.  `unused = opt[k-1][l][c]; ... min(unused, ...)` then reads like `min(opt[k-1][l][c], ...)`."""
+        import copy
+        repo = self
+
+        def pure(e):
+            for x in ast.walk(e):
+                if isinstance(x, (ast.Yield, ast.YieldFrom, ast.Await, ast.NamedExpr, ast.Lambda, ast.SetComp, ast.DictComp,
+                                  ast.GeneratorExp, ast.Starred, ast.IfExp)):
+                    return False
+                if isinstance(x, ast.Call) and not (isinstance(x.func, ast.Name) and x.func.id in ("min", "max", "len", "range", "abs",
+                                                                                                   "int", "float") and not x.keywords):
+                    return False
+            return True
+
+        def base_name(t):
+            while isinstance(t, (ast.Subscript, ast.Attribute)):
+                t = t.value
+            return t.id if isinstance(t, ast.Name) else None
+
+        def mutated(stmt, names):
+            """does stmt change any of `names` (store to the name, to a subscript/attribute of it, or a method call on it)"""
+            for x in ast.walk(stmt):
+                if isinstance(x, (ast.Name, ast.Subscript, ast.Attribute)) and isinstance(getattr(x, "ctx", None), (ast.Store, ast.Del)):
+                    if base_name(x) in names:
+                        return True
+                if isinstance(x, ast.Call) and isinstance(x.func, ast.Attribute) and base_name(x.func.value) in names:
+                    return True
+                if isinstance(x, ast.Call) and any(isinstance(a, ast.Name) and a.id in names for a in x.args):
+                    # a mutable object handed to a call may be changed by it
+                    if not (isinstance(x.func, ast.Name) and x.func.id in ("len", "min", "max", "range", "int", "float", "argmin", "sum")):
+                        return True
+            return False
+
+        class Sub(ast.NodeTransformer):
+            def __init__(self, name, expr):
+                self.name, self.expr, self.n = name, expr, 0
+
+            def visit_Name(self, node):
+                if node.id == self.name and isinstance(node.ctx, ast.Load):
+                    self.n += 1
+                    return ast.copy_location(copy.deepcopy(self.expr), node)
+                return node
+
+        def loads(node, name):
+            return sum(1 for x in ast.walk(node) if isinstance(x, ast.Name) and x.id == name and isinstance(x.ctx, ast.Load))
+
+        def process(fn):
+            stores = {}
+            comp_targets = {id(t) for c in ast.walk(fn) if isinstance(c, (ast.ListComp, ast.SetComp, ast.DictComp, ast.GeneratorExp))
+                            for g_ in c.generators for t in ast.walk(g_.target)}
+            for x in ast.walk(fn):
+                if isinstance(x, ast.Name) and isinstance(x.ctx, (ast.Store, ast.Del)):
+                    # a comprehension variable is bound in its own scope; a function-level local of the same name
+                    # would make substitution into the comprehension unsafe, so it counts as a second binding
+                    stores[x.id] = stores.get(x.id, 0) + (1 if id(x) not in comp_targets else 2)
+                elif isinstance(x, ast.arg):
+                    stores[x.arg] = stores.get(x.arg, 0) + 2
+                elif isinstance(x, (ast.Global, ast.Nonlocal)):
+                    for n_ in x.names:
+                        stores[n_] = stores.get(n_, 0) + 2
+            total = {k: loads(fn, k) for k in stores}
+
+            def rewrite(stmts):
+                i = 0
+                while i < len(stmts):
+                    s_ = stmts[i]
+                    for fld in ("body", "orelse", "finalbody"):
+                        if hasattr(s_, fld) and isinstance(getattr(s_, fld), list) and not isinstance(s_, (ast.FunctionDef, ast.ClassDef)):
+                            rewrite(getattr(s_, fld))
+                    if isinstance(s_, ast.Assign) and len(s_.targets) == 1 and isinstance(s_.targets[0], ast.Name) \
+                            and stores.get(s_.targets[0].id) == 1 and pure(s_.value) \
+                            and not isinstance(s_.value, (ast.Constant, ast.List, ast.Dict, ast.Set, ast.Tuple)):
+                        x = s_.targets[0].id
+                        reads = {n_.id for n_ in ast.walk(s_.value) if isinstance(n_, ast.Name)}
+                        rest = stmts[i + 1:]
+                        def scan(block, blocked):
+                            """-> (ok, blocked afterwards): every use of x is evaluated before anything it reads changes"""
+                            for r in block:
+                                u = loads(r, x)
+                                if isinstance(r, ast.If):
+                                    if loads(r.test, x) and blocked:
+                                        return False, True
+                                    if mutated(ast.Expr(r.test), reads):
+                                        if u:
+                                            return False, True
+                                        blocked = True
+                                    ok1, b1 = scan(r.body, blocked)
+                                    ok2, b2 = scan(r.orelse, blocked)
+                                    if not (ok1 and ok2):
+                                        return False, True
+                                    blocked = b1 or b2
+                                    continue
+                                if u and blocked:
+                                    return False, True
+                                if mutated(r, reads):
+                                    # uses inside the value of a plain assignment are evaluated before its store
+                                    value_only = isinstance(r, ast.Assign) and not mutated(ast.Expr(r.value), reads) \
+                                        and all(loads(t, x) == 0 for t in r.targets)
+                                    if u and not value_only:
+                                        return False, True
+                                    blocked = True
+                            return True, blocked
+                        ok, _ = scan(rest, False)
+                        inside = sum(loads(r, x) for r in rest)
+                        def builds_list(e):
+                            if isinstance(e, (ast.ListComp, ast.List, ast.Dict, ast.Set)):
+                                return True
+                            if isinstance(e, ast.BinOp):
+                                return builds_list(e.left) or builds_list(e.right)
+                            if isinstance(e, ast.Subscript):
+                                return builds_list(e.value) and isinstance(e.slice, ast.Slice)
+                            return False
+                        if ok and builds_list(s_.value):
+                            # an expression that builds a fresh list: only if every use just reads it by value
+                            by_value = 0
+                            for r in rest:
+                                for c_ in ast.walk(r):
+                                    if isinstance(c_, ast.Call) and isinstance(c_.func, ast.Name) \
+                                            and c_.func.id in ("min", "max", "len", "argmin", "sum", "sorted"):
+                                        by_value += sum(1 for a in c_.args if isinstance(a, ast.Name) and a.id == x)
+                            ok = by_value == inside
+                        if ok and inside == total.get(x, 0) and inside > 0 and x not in reads:
+                            for r in rest:
+                                Sub(x, s_.value).visit(r)
+                            del stmts[i]
+                            repo.substituted_locals.append((fn.name, x))
+                            continue
+                    i += 1
+            rewrite(fn.body)
+
+        for rel, m in self.modules.items():
+            if not rel.startswith(prefix):
+                continue
+            for n in ast.walk(m.tree):
+                if isinstance(n, ast.FunctionDef):
+                    process(n)
+
+    def _split_conditional_locals(self):
+        """NORM: `x = A if C else B` followed by the rest of the block becomes `if C: <rest with x := A> else: <rest
+        with x := B>` when A and B are simple side-effect-free expressions and neither x nor what A/B read is assigned
+        in the rest; string concatenations of literals are folded.  A choice made through a local (`level = "disk" if
+        cm == 0 else "memory"; insert("Write_" + level)`) then reads like the two spelled-out branches."""
+        import copy
+
+        def simple(e):
+            return all(isinstance(x, (ast.Name, ast.Constant, ast.Subscript, ast.Attribute, ast.Load, ast.BinOp, ast.Add, ast.Sub,
+                                      ast.USub, ast.UnaryOp)) for x in ast.walk(e))
+
+        def stores(stmts):
+            out = set()
+            for s_ in stmts:
+                for x in ast.walk(s_):
+                    if isinstance(x, ast.Name) and isinstance(x.ctx, (ast.Store, ast.Del)):
+                        out.add(x.id)
+                    elif isinstance(x, (ast.Global, ast.Nonlocal)):
+                        out.update(x.names)
+            return out
+
+        class Sub(ast.NodeTransformer):
+            def __init__(self, name, expr):
+                self.name, self.expr = name, expr
+
+            def visit_Name(self, node):
+                if node.id == self.name and isinstance(node.ctx, ast.Load):
+                    return ast.copy_location(copy.deepcopy(self.expr), node)
+                return node
+
+            def visit_BinOp(self, node):
+                self.generic_visit(node)
+                if isinstance(node.op, ast.Add) and isinstance(node.left, ast.Constant) and isinstance(node.right, ast.Constant) \
+                        and isinstance(node.left.value, str) and isinstance(node.right.value, str):
+                    return ast.copy_location(ast.Constant(node.left.value + node.right.value), node)
+                return node
+
+        repo = self
+
+        def rewrite(stmts, fname, rel, depth=0):
+            for i, s_ in enumerate(stmts):
+                for fld in ("body", "orelse", "finalbody"):
+                    if hasattr(s_, fld) and isinstance(getattr(s_, fld), list) and not isinstance(s_, (ast.FunctionDef, ast.ClassDef)):
+                        setattr(s_, fld, rewrite(getattr(s_, fld), fname, rel, depth))
+                if isinstance(s_, ast.Assign) and len(s_.targets) == 1 and isinstance(s_.targets[0], ast.Name) \
+                        and isinstance(s_.value, ast.IfExp) and simple(s_.value.body) and simple(s_.value.orelse) and depth < 3:
+                    x = s_.targets[0].id
+                    rest = stmts[i + 1:]
+                    reads = {n.id for e in (s_.value.body, s_.value.orelse) for n in ast.walk(e) if isinstance(n, ast.Name)}
+                    st_ = stores(rest)
+                    nested_use = any(isinstance(n, (ast.FunctionDef, ast.Lambda)) for r in rest for n in ast.walk(r))
+                    if rest and x not in st_ and not (reads & st_) and not nested_use and len(rest) <= 60:
+                        a = [Sub(x, s_.value.body).visit(copy.deepcopy(r)) for r in rest]
+                        b = [Sub(x, s_.value.orelse).visit(copy.deepcopy(r)) for r in rest]
+                        node = ast.If(s_.value.test, rewrite(a, fname, rel, depth + 1), rewrite(b, fname, rel, depth + 1))
+                        ast.copy_location(node, s_)
+                        ast.fix_missing_locations(node)
+                        repo.split_locals.append((rel, fname, x))
+                        return stmts[:i] + [node]
+            return stmts
+
+        for rel, m in self.modules.items():
+            for n in ast.walk(m.tree):
+                if isinstance(n, ast.FunctionDef):
+                    n.body = rewrite(n.body, n.name, rel)
+
+    def _inline_helpers(self):
+        """NORM: calls of trivial helpers are replaced by their bodies, so that an expression or a run of
+        statements means the same to every rule whether or not it was extracted into a helper:
+        (a) module-level functions that only `return <expression>` (no decorator, not recursive), called by bare name
+            with side-effect-free arguments;
+        (b) nested functions whose body is a run of call statements, called as a statement."""
+        import copy
+        counter = [0]
+
+        def docless(body):
+            return [b for b in body if not (isinstance(b, ast.Expr) and isinstance(b.value, ast.Constant))]
+
+        def plain_params(f):
+            a = f.args
+            return not (a.vararg or a.kwarg or a.kwonlyargs or a.posonlyargs or a.defaults)
+
+        def reposition(new, site):
+            for x in ast.walk(new):
+                if isinstance(x, (ast.expr, ast.stmt)) or hasattr(x, "lineno"):
+                    counter[0] += 1
+                    x.lineno = site.lineno
+                    x.end_lineno = getattr(site, "end_lineno", site.lineno)
+                    x.col_offset = 40000 + counter[0]
+                    x.end_col_offset = 40000 + counter[0]
+            return new
+
+        class Bind(ast.NodeTransformer):
+            def __init__(self, env):
+                self.env = env
+
+            def visit_Name(self, node):
+                if isinstance(node.ctx, ast.Load) and node.id in self.env:
+                    return copy.deepcopy(self.env[node.id])
+                return node
+
+        def pure_arg(a):
+            return not any(isinstance(x, (ast.Call, ast.Yield, ast.YieldFrom, ast.Await, ast.NamedExpr, ast.Lambda,
+                                          ast.ListComp, ast.SetComp, ast.DictComp, ast.GeneratorExp, ast.Starred))
+                           for x in ast.walk(a))
+
+        # (a) expression functions
+        exprfns, names = {}, {}
+        for rel, m in self.modules.items():
+            for n in m.tree.body:
+                if isinstance(n, (ast.FunctionDef, ast.ClassDef)):
+                    names[n.name] = names.get(n.name, 0) + 1
+        for rel, m in self.modules.items():
+            for n in m.tree.body:
+                if isinstance(n, ast.FunctionDef) and not n.decorator_list and plain_params(n) and names.get(n.name) == 1:
+                    body = docless(n.body)
+                    if len(body) == 1 and isinstance(body[0], ast.Return) and body[0].value is not None:
+                        e = body[0].value
+                        bad = any(isinstance(x, (ast.Lambda, ast.Yield, ast.YieldFrom, ast.Await, ast.NamedExpr, ast.Starred))
+                                  or (isinstance(x, ast.Call) and isinstance(x.func, ast.Name) and x.func.id == n.name)
+                                  for x in ast.walk(e)) or isinstance(e, ast.Dict)     # a record constructor stays a call
+                        if not bad:
+                            exprfns[n.name] = ([a.arg for a in n.args.args], e)
+        repo = self
+
+        class InlineExpr(ast.NodeTransformer):
+            def __init__(self, rel, owner):
+                self.rel, self.owner = rel, owner
+
+            def visit_Call(self, node):
+                self.generic_visit(node)
+                if isinstance(node.func, ast.Name) and node.func.id in exprfns and not node.keywords \
+                        and node.func.id != self.owner:
+                    params, e = exprfns[node.func.id]
+                    if len(node.args) != len(params) or not all(pure_arg(a) for a in node.args):
+                        return node
+                    bound = {x.id for x in ast.walk(e) if isinstance(x, ast.Name) and isinstance(x.ctx, ast.Store)}
+                    argnames = {x.id for a in node.args for x in ast.walk(a) if isinstance(x, ast.Name)}
+                    if bound & argnames or bound & set(params):
+                        return node
+                    new = Bind(dict(zip(params, node.args))).visit(copy.deepcopy(e))
+                    repo.inlined_helpers.append((self.rel, self.owner, node.func.id))
+                    return reposition(new, node)
+                return node
+
+        for rel, m in self.modules.items():
+            for n in ast.walk(m.tree):
+                if isinstance(n, ast.FunctionDef) and n.name not in exprfns:
+                    tr = InlineExpr(rel, n.name)
+                    n.body = [tr.visit(b) for b in n.body]
+
+        # (b) nested statement helpers
+        def inline_stmt_helpers(rel, F):
+            helpers = {}
+            for g in F.body:
+                if isinstance(g, ast.FunctionDef) and not g.decorator_list and plain_params(g):
+                    body = docless(g.body)
+                    if body and all(isinstance(b, ast.Expr) and isinstance(b.value, ast.Call) for b in body):
+                        stored = {x.id for b in body for x in ast.walk(b) if isinstance(x, ast.Name) and isinstance(x.ctx, ast.Store)}
+                        if not stored and not any(isinstance(x, ast.Call) and isinstance(x.func, ast.Name) and x.func.id == g.name
+                                                  for b in body for x in ast.walk(b)):
+                            helpers[g.name] = ([a.arg for a in g.args.args], body, g)
+            if not helpers:
+                return
+
+            def rewrite(stmts):
+                out = []
+                for s_ in stmts:
+                    if isinstance(s_, ast.FunctionDef):
+                        out.append(s_)
+                        continue
+                    if isinstance(s_, ast.Expr) and isinstance(s_.value, ast.Call) and isinstance(s_.value.func, ast.Name) \
+                            and s_.value.func.id in helpers and not s_.value.keywords:
+                        params, body, g = helpers[s_.value.func.id]
+                        call = s_.value
+                        if len(call.args) == len(params) and all(pure_arg(a) for a in call.args):
+                            env = dict(zip(params, call.args))
+                            for b in body:
+                                out.append(reposition(Bind(env).visit(copy.deepcopy(b)), s_))
+                            repo.inlined_helpers.append((rel, F.name, g.name))
+                            continue
+                    for fld in ("body", "orelse", "finalbody"):
+                        if hasattr(s_, fld) and isinstance(getattr(s_, fld), list):
+                            setattr(s_, fld, rewrite(getattr(s_, fld)))
+                    if isinstance(s_, ast.Try):
+                        for h in s_.handlers:
+                            h.body = rewrite(h.body)
+                    out.append(s_)
+                return out
+            F.body = rewrite(F.body)
+            # a helper that is no longer referenced is dropped
+            for name, (params, body, g) in helpers.items():
+                used = any(isinstance(x, ast.Name) and x.id == name and isinstance(x.ctx, ast.Load)
+                           for b in F.body if b is not g for x in ast.walk(b))
+                if not used:
+                    F.body = [b for b in F.body if b is not g]
+
+        for rel, m in self.modules.items():
+            for n in ast.walk(m.tree):
+                if isinstance(n, ast.FunctionDef):
+                    inline_stmt_helpers(rel, n)
+
+        # (c) module-level procedures of the table/sequence builders (no value returned, not recursive, no generator),
+        #     called as a statement: the body is placed at the call, its locals renamed apart
+        procs = {}
+        for rel, m in self.modules.items():
+            if not rel.startswith("hrevolve_sequences/"):
+                continue
+            for n in m.tree.body:
+                if isinstance(n, ast.FunctionDef) and not n.decorator_list and plain_params(n) and names.get(n.name) == 1:
+                    bad = any(isinstance(x, (ast.Yield, ast.YieldFrom, ast.Global, ast.Nonlocal, ast.Lambda, ast.FunctionDef))
+                              and x is not n for x in ast.walk(n))
+                    rets = [x for x in ast.walk(n) if isinstance(x, ast.Return)]
+                    rec = any(isinstance(x, ast.Call) and isinstance(x.func, ast.Name) and x.func.id == n.name for x in ast.walk(n))
+                    if not bad and not rets and not rec and len(docless(n.body)) >= 1:
+                        procs[n.name] = n
+
+        class RenameLocals(ast.NodeTransformer):
+            def __init__(self, m_):
+                self.m = m_
+
+            def visit_Name(self, node):
+                if node.id in self.m:
+                    return ast.copy_location(ast.Name(self.m[node.id], node.ctx), node)
+                return node
+
+        def inline_procs(rel, F):
+            def rewrite(stmts):
+                out = []
+                for s_ in stmts:
+                    if isinstance(s_, ast.Expr) and isinstance(s_.value, ast.Call) and isinstance(s_.value.func, ast.Name) \
+                            and s_.value.func.id in procs and s_.value.func.id != F.name and not s_.value.keywords:
+                        g = procs[s_.value.func.id]
+                        params = [a.arg for a in g.args.args]
+                        call = s_.value
+                        stored = {x.id for x in ast.walk(g) if isinstance(x, ast.Name) and isinstance(x.ctx, (ast.Store, ast.Del))}
+                        if len(call.args) == len(params) and all(pure_arg(a) for a in call.args) and not (stored & set(params)):
+                            ren = {x: f"{g.name}__{x}" for x in stored}
+                            env = dict(zip(params, call.args))
+                            for b in docless(g.body):
+                                nb = RenameLocals(ren).visit(copy.deepcopy(b))
+                                out.append(reposition(Bind(env).visit(nb), s_))
+                            repo.inlined_helpers.append((rel, F.name, g.name))
+                            continue
+                    for fld in ("body", "orelse", "finalbody"):
+                        if hasattr(s_, fld) and isinstance(getattr(s_, fld), list) and not isinstance(s_, (ast.FunctionDef, ast.ClassDef)):
+                            setattr(s_, fld, rewrite(getattr(s_, fld)))
+                    out.append(s_)
+                return out
+            F.body = rewrite(F.body)
+
+        if procs:
+            for rel, m in self.modules.items():
+                if rel.startswith("hrevolve_sequences/"):
+                    for n in m.tree.body:
+                        if isinstance(n, ast.FunctionDef) and n.name not in procs:
+                            inline_procs(rel, n)
+
+    def _synthesise_properties(self):
+        """NORM: a class attribute `name = make(k, ...)`, where `make` is a module-level property factory
+        (`def make(p): def fget(self): return <expr>; return property(fget)`, or `return property(lambda self: <expr>)`),
+        is replaced by the explicit `@property def name(self): return <expr with p := k>`"""
+        import copy
+        factories = {}
+        for rel, m in self.modules.items():
+            for n in m.tree.body:
+                if not isinstance(n, ast.FunctionDef) or n.args.vararg or n.args.kwarg or n.args.kwonlyargs:
+                    continue
+                body = [b for b in n.body if not (isinstance(b, ast.Expr) and isinstance(b.value, ast.Constant))]
+                expr = None
+                if len(body) == 2 and isinstance(body[0], ast.FunctionDef) and isinstance(body[1], ast.Return):
+                    g, r = body
+                    gb = [b for b in g.body if not (isinstance(b, ast.Expr) and isinstance(b.value, ast.Constant))]
+                    if isinstance(r.value, ast.Call) and ast.unparse(r.value.func) == "property" and len(r.value.args) == 1 \
+                            and isinstance(r.value.args[0], ast.Name) and r.value.args[0].id == g.name and not r.value.keywords \
+                            and len(g.args.args) == 1 and len(gb) == 1 and isinstance(gb[0], ast.Return) and gb[0].value is not None:
+                        expr, selfname = gb[0].value, g.args.args[0].arg
+                elif len(body) == 1 and isinstance(body[0], ast.Return) and isinstance(body[0].value, ast.Call) \
+                        and ast.unparse(body[0].value.func) == "property" and len(body[0].value.args) == 1 \
+                        and isinstance(body[0].value.args[0], ast.Lambda) and len(body[0].value.args[0].args.args) == 1 \
+                        and not body[0].value.keywords:
+                    lam = body[0].value.args[0]
+                    expr, selfname = lam.body, lam.args.args[0].arg
+                if expr is not None:
+                    factories[n.name] = ([a.arg for a in n.args.args], expr, selfname)
+
+        class Bind(ast.NodeTransformer):
+            def __init__(self, env):
+                self.env = env
+
+            def visit_Name(self, node):
+                if isinstance(node.ctx, ast.Load) and node.id in self.env:
+                    return ast.copy_location(copy.deepcopy(self.env[node.id]), node)
+                return node
+
+        if not factories:
+            return
+        for rel, c in list(self.all_classes()):
+            for i, n in enumerate(list(c.body)):
+                if not (isinstance(n, ast.Assign) and len(n.targets) == 1 and isinstance(n.targets[0], ast.Name)
+                        and isinstance(n.value, ast.Call) and isinstance(n.value.func, ast.Name)
+                        and n.value.func.id in factories and not n.value.keywords):
+                    continue
+                params, expr, selfname = factories[n.value.func.id]
+                if len(n.value.args) != len(params) or not all(isinstance(a, ast.Constant) for a in n.value.args):
+                    continue
+                env = dict(zip(params, n.value.args))
+                env[selfname] = ast.Name("self", ast.Load())
+                new_expr = Bind(env).visit(copy.deepcopy(expr))
+                f = ast.FunctionDef(name=n.targets[0].id,
+                                    args=ast.arguments(posonlyargs=[], args=[ast.arg("self")], kwonlyargs=[], kw_defaults=[], defaults=[]),
+                                    body=[ast.Return(new_expr)], decorator_list=[ast.Name("property", ast.Load())], returns=None,
+                                    type_comment=None, type_params=[])
+                ast.copy_location(f, n)
+                for x in ast.walk(f):
+                    if not hasattr(x, "lineno"):
+                        ast.copy_location(x, n)
+                    else:
+                        x.lineno, x.end_lineno = n.lineno, n.end_lineno
+                ast.fix_missing_locations(f)
+                c.body[c.body.index(n)] = f
+                self.synthesised_properties.append((rel, c.name, f.name))
+
     def _expand_properties(self):
         """NORM: inside the methods of a class, a load of `self.<p>` where p is a read-only property whose body is
         one `return <expression over self>` is replaced by that expression (copies get positions of their own), so
@@ -154,8 +674,19 @@ class Repo:
 
     def all_functions(self):
         """(rel, qualname, FunctionDef) for every top-level function and method"""
+        def toplevel(stmts):
+            # definitions at module level, also inside module-level if / try / with blocks (a fallback defined in an
+            # `except ImportError:` branch is a function of the module like any other)
+            for n in stmts:
+                if isinstance(n, (ast.FunctionDef, ast.ClassDef)):
+                    yield n
+                elif isinstance(n, (ast.If, ast.Try, ast.With, ast.For, ast.While)):
+                    for fld in ("body", "orelse", "finalbody"):
+                        yield from toplevel(getattr(n, fld, []) or [])
+                    for h in getattr(n, "handlers", []) or []:
+                        yield from toplevel(h.body)
         for rel, m in self.modules.items():
-            for n in m.tree.body:
+            for n in toplevel(m.tree.body):
                 if isinstance(n, ast.FunctionDef):
                     yield rel, n.name, n
                 elif isinstance(n, ast.ClassDef):
